@@ -1383,6 +1383,16 @@ func csrfConcurrent(s *simrt.Sim, info *harness.RunInfo, k *csrfConc) {
 				}
 				now, _ := b.Get(k.cookieName)
 				s.Logf("op%d b%d ret status=%d ran=%v cookie now %s", op.id, bi, op.status, op.ran, k.alias(now))
+				// the token cookie a response leaves is the token the middleware settled on for THIS request
+				// (the one its handler finds in the context), whatever other requests do meanwhile
+				for _, sc := range resp.Header["Set-Cookie"] {
+					if v, ok := strings.CutPrefix(sc, k.cookieName+"="); ok && op.ran && op.ctxTok != "" {
+						v, _, _ = strings.Cut(v, ";")
+						if v != "" && v != op.ctxTok {
+							s.Fail("C16.cookie-carries-another-requests-token", "op%d (b%d %s): the handler was given token %s, the response sets the cookie to %s (a token issued for another, concurrent request)", op.id, bi, op.method, k.alias(op.ctxTok), k.alias(v))
+						}
+					}
+				}
 			}
 		})
 	}
